@@ -73,7 +73,7 @@ macro_rules! dict_remove_contract {
                 let (p, q, r): (usize, usize, usize) = ($p, $q, $r);
                 let got = d.remove(&K[p]);
                 assert!(got == Some(v[p]), "C03: remove returns the value of the removed key");
-                assert!(wf(&d) && d.len() == 2, "C02/C03/C05: remove keeps the index map the inverse of the entries (a stale index makes a name resolve to a higher attribute)");
+                assert!(wf(&d) && d.len() == 2, "C02/C03/C05/C09: remove keeps the index map the inverse of the entries (a stale index makes a name resolve to a higher attribute, or to none: a spurious not-found error)");
                 assert!(d.entries[0] == (K[q], v[q]) && d.entries[1] == (K[r], v[r]), "C03: the relative order and content of the other entries is unchanged");
                 assert!(d.get(&K[q]) == Some(&v[q]) && d.get(&K[r]) == Some(&v[r]) && d.get(&K[p]).is_none() && !d.contains_key(&K[p]), "C03: lookups after removal");
                 assert!(d.remove(&NK).is_none() && wf(&d) && d.len() == 2, "C03: removing an absent key is a no-op");
@@ -81,11 +81,11 @@ macro_rules! dict_remove_contract {
         }
     };
 }
-// @obl props=C02,C03,C05 tier=quick class=bounded fn=data_struct::Dict::remove shape="3 entries, remove rank 0"
+// @obl props=C02,C03,C05,C09 tier=quick class=bounded fn=data_struct::Dict::remove shape="3 entries, remove rank 0"
 dict_remove_contract!(dict__remove_p0, 0, 1, 2);
-// @obl props=C02,C03,C05 tier=quick class=bounded fn=data_struct::Dict::remove shape="3 entries, remove rank 1"
+// @obl props=C02,C03,C05,C09 tier=quick class=bounded fn=data_struct::Dict::remove shape="3 entries, remove rank 1"
 dict_remove_contract!(dict__remove_p1, 1, 0, 2);
-// @obl props=C02,C03,C05 tier=quick class=bounded fn=data_struct::Dict::remove shape="3 entries, remove rank 2"
+// @obl props=C02,C03,C05,C09 tier=quick class=bounded fn=data_struct::Dict::remove shape="3 entries, remove rank 2"
 dict_remove_contract!(dict__remove_p2, 2, 0, 1);
 
 macro_rules! dict_rename_contract {
